@@ -76,7 +76,9 @@ NATIVE = {
     'mutation._apply_for_each': C12.NATIVE['mutation._apply_for_each'],
 }
 from contracts import extra as _extra
-BOUNDED = [_extra.bounded_from_text]
+from contracts import extra as _extra2
+from contracts import C01 as _C01
+BOUNDED = [_extra.bounded_from_text, _extra2.bounded_path_composition, _C01.bounded_registered_access]
 ASSUMPTIONS = [
     'G-contract for fetching the parent / evaluating the nested Assign; opaque user primitives obj[k] = v / setattr / registered assign handler / missing()',
     'atomicity: on every path the stores into pre-existing objects are the _assign_op calls made through _apply_for_each; for a wildcard-free path that is one store, '
